@@ -43,6 +43,9 @@ ASSUMPTIONS = [
     'Decimal multiplication of Base/Decimal.v (prec 28, ROUND_HALF_EVEN); sets are compared as sorted lists; '
     'dates as ordinals; Amount/Cost/Position/directives as tuples of their fields; Custom.values are not modelled '
     '(no table exposes them)',
+    'bulk comparison is per (table, column): a 48-bit multiplicative hash (Tables.hash_out, same function in the '
+    'harness) of the column\'s canonical cells, the exception kind when the column raises, balance cell by cell; a '
+    'differing column is re-run with the cell-by-cell output (run_all_out) to locate and report the row',
     'FROM qualifiers OPEN/CLOSE/CLEAR (BeanTable.prepare -> summarize, property C13) are not used',
     'other_accounts excludes the posting by object identity in the code and by position in the model: ledgers '
     'never hold the same Posting object twice in one transaction (equal-valued distinct postings are generated)',
